@@ -297,3 +297,7 @@ def run(ctx):
     # overwritten, in place, the tensors it carried or was handed
     from . import c05
     ctx.guard(c05.r05_5_solvers)
+    # ... nor keep anything on the solver object from one step to the next (a list of parameters 'found in use' at the
+    # first backward step, a cached evaluation): every step is a function of its arguments (rule of C13)
+    from . import c13
+    ctx.guard(c13.r13_1)
